@@ -23,6 +23,9 @@ TRUSTED_BASE = [
 ]
 
 
+SOURCE_DRIFT_WIDEN = 3
+
+
 def write_replay(pid, payload):
     os.makedirs(os.path.join(VERIF, "replays"), exist_ok=True)
     blob = json.dumps(payload, sort_keys=True, default=jsonable, indent=1)
@@ -102,6 +105,20 @@ def main():
                   if v is None or not set(v) <= common.ALLOWED_AXIOMS}
     if bad_axioms and not generated_break:
         raise InfraError("axiom audit failed: %s\n%s" % (bad_axioms, a.get("audit_raw", "")))
+
+    # ---- source drift: the files this property is anchored in differ from the ones the model was last validated
+    # against -> not a violation, not a disagreement; only a reason to search harder from the start
+    try:
+        import fingerprint
+        drift = fingerprint.relevant(pid, fingerprint.changed_files(common.REPO), VERIF)
+    except Exception:
+        drift = []
+    if os.environ.get("VERIF_FORCE_WIDEN"):      # testing aid: behave as if the anchored sources had changed
+        drift = drift or ["<forced by VERIF_FORCE_WIDEN>"]
+    if drift and replay_case is None:
+        ctx.widen = SOURCE_DRIFT_WIDEN
+        ctx.extra["source_drift"] = {"files": drift, "widen": SOURCE_DRIFT_WIDEN}
+        ctx.count("source-drift-widened", 1)
 
     # ---- B + C: correspondence and property oracle
     ctx.driver = Driver()
